@@ -2,6 +2,7 @@ use crate::engine::*;
 
 pub mod c01;
 pub mod c04;
+pub mod c05;
 pub mod c06;
 pub mod c07;
 
@@ -9,6 +10,7 @@ pub fn dispatch(env: &Env) -> i32 {
     match env.prop.as_str() {
         "C01" => c01::run(env),
         "C04" => c04::run(env),
+        "C05" => c05::run(env),
         "C06" => c06::run(env),
         "C07" => c07::run(env),
         other => {
